@@ -31,6 +31,7 @@ func init() {
 			"(BTW) Between.Eval, folded over the 16 pairs of outcomes of comparing the value with the lower and the upper bound, equals the Kleene AND of the folded tables of value >= lower and value <= upper; " +
 			"(SQ) InSubquery.Eval, folded over {left NULL, value} x {no rows, rows without / with NULL, match, match and NULL, no match with NULL, no match}, has the table of the disjunction of equalities over the subquery's rows (FALSE over no rows even for a NULL left operand), NewNotInSubquery is Not(InSubquery(left, right)), and ExistsSubquery.Eval passes the row test through two-valued; " +
 			"(SB) the BETWEEN arm of simplifyExpression, folded for six sameness scenarios of its operands (no columns, three different columns, lower=upper, value=lower, value=upper, all the same column), returns an expression whose table equals that of val >= lower AND val <= upper on every pair of compare outcomes consistent with the scenario; " +
+			"(SC) the And / Or arms of simplifyExpression, folded (together with getDefiniteBoolValues) for the 25 pairs of operand kinds {literal TRUE, FALSE, NULL, boolean predicate, non-boolean expression}, return an expression with the same three-valued table on every truth assignment and never replace the connective by a non-boolean operand; " +
 			"(PB) Builder.buildComparison maps each operator constant (=, <, <=, >, >=, <=>, !=, IN and NOT IN over a tuple and over a subquery) and Builder.buildScalar's RangeCond arm maps BETWEEN / NOT BETWEEN to the expression of that name with the operands in position (value, lower, upper); " +
 			"(PN) every arm of pushNotFiltersHelper (NOT NOT, De Morgan, negated comparisons, NOT BETWEEN => < OR >) returns an expression with the same three-valued table as its input.",
 		NotCovered: "equality of results of arbitrary equivalent statements; IN/EXISTS subqueries against their semi-/anti-join formulations (the rewrite in unnestInSubqueries / unnestExistsSubqueries carries no nullability guard to name: NOT IN becomes an anti join on an Equals filter and the NULL behaviour is the join executor's, C01's subject; only the expression side's table is read here), tuple-valued IN (subquery), hash collisions in the subquery cache; join conditions in ON versus WHERE; CTE / derived-table inlining; constant folding versus column evaluation; " +
@@ -38,7 +39,7 @@ func init() {
 		Technique: "finite-domain abstract interpretation (AST folding over abstract compare outcomes and truth values) + composition of the folded tables",
 		Run:       func(c *Ctx) { runC06(c, c06Real) },
 		Fixture: func(c *Ctx, fx *Prog) {
-			expectFixture(c, fx, "c06: IN forgetting a NULL-valued element, hash-IN ignoring the NULL flag, BETWEEN with swapped bounds, Compare treating one NULL operand as a value, newInMap not flagging a NULL literal, NULL IN (no rows) answering NULL, planbuilder exchanging the BETWEEN bounds / building <= as < / NOT IN (subquery) as IN, x BETWEEN x AND y simplified to x >= y, rewrite without the isStatic guard, NOT(>) pushed down to < must be reported", c06FixtureWant, func(fc *Ctx) { runC06(fc, c06Fix) })
+			expectFixture(c, fx, "c06: IN forgetting a NULL-valued element, hash-IN ignoring the NULL flag, BETWEEN with swapped bounds, Compare treating one NULL operand as a value, newInMap not flagging a NULL literal, NULL IN (no rows) answering NULL, planbuilder exchanging the BETWEEN bounds / building <= as < / NOT IN (subquery) as IN, x BETWEEN x AND y simplified to x >= y, p AND TRUE simplified to TRUE, FALSE OR n to a non-boolean n, rewrite without the isStatic guard, NOT(>) pushed down to < must be reported", c06FixtureWant, func(fc *Ctx) { runC06(fc, c06Fix) })
 		},
 		FixturePkgs: []string{"./testdata/c06/expr", "./testdata/c06/an", "./testdata/c06/pb"},
 	})
@@ -52,7 +53,7 @@ type c06Anchors struct {
 }
 
 var c06Real = c06Anchors{ex: "sql/expression", ty: "sql/types", hs: "sql/hash", sq: "sql", an: "sql/analyzer", pl: "sql/plan", pb: "sql/planbuilder",
-	floors: map[string]int{"C06-CMP": 28, "C06-IN": 113, "C06-HIN": 14, "C06-HF": 17, "C06-HG": 9, "C06-BTW": 16, "C06-PN": 8, "C06-SQ": 11, "C06-PB": 13, "C06-SB": 6}, outOfRangeDead: true}
+	floors: map[string]int{"C06-CMP": 28, "C06-IN": 113, "C06-HIN": 14, "C06-HF": 17, "C06-HG": 9, "C06-BTW": 16, "C06-PN": 8, "C06-SQ": 11, "C06-PB": 13, "C06-SB": 6, "C06-SC": 50}, outOfRangeDead: true}
 var c06Fix = c06Anchors{ex: "testdata/c06/expr", ty: "testdata/c06/expr", hs: "testdata/c06/expr", sq: "testdata/c06/expr", an: "testdata/c06/an", pl: "testdata/c06/expr", pb: "testdata/c06/pb",
 	floors: map[string]int{}}
 
@@ -90,6 +91,10 @@ var c06FixtureWant = []string{
 	"C06-PB:buildScalar/RangeCond/BetweenStr",
 	"C06-PN:pushNotFiltersHelper/NOT(GreaterThan)",
 	"C06-SB:simplifyExpression/Between/value-and-lower-the-same-column",
+	"C06-SC:simplifyExpression/And(NULL,TRUE)",
+	"C06-SC:simplifyExpression/And(non-boolean,TRUE)",
+	"C06-SC:simplifyExpression/And(predicate,TRUE)",
+	"C06-SC:simplifyExpression/Or(FALSE,non-boolean)",
 	"C06-SQ:InSubquery.Eval(left=NULL,rows=no-rows)",
 }
 
@@ -292,6 +297,7 @@ func runC06(c *Ctx, a c06Anchors) {
 	c.Rule("C06-SQ", "InSubquery.Eval over {left NULL/value} x {no rows, match, match and NULL, no match with NULL, no match} == disjunction of equalities over the rows; NewNotInSubquery == Not(InSubquery(left,right)); ExistsSubquery.Eval passes the row test through", fl("C06-SQ"))
 	c.Rule("C06-PB", "planbuilder: each comparison operator / BETWEEN / IN / NOT IN builds the expression of that name with the operands in position", fl("C06-PB"))
 	c.Rule("C06-SB", "simplifyExpression's BETWEEN arm (general form and the same-column shortcuts) returns an expression with the table of val >= lower AND val <= upper on every consistent point", fl("C06-SB"))
+	c.Rule("C06-SC", "simplifyExpression's And / Or arms over operand kinds {TRUE, FALSE, NULL literal, boolean predicate, non-boolean expression}^2 return an expression with the same three-valued table and never a non-boolean operand", fl("C06-SC"))
 	c.Rule("C06-PN", "each arm of pushNotFiltersHelper returns an expression with the same three-valued table as its input", fl("C06-PN"))
 
 	w := &c06World{c: c, ex: c.P.Pkg(a.ex), ty: c.P.Pkg(a.ty), hs: c.P.Pkg(a.hs), sq: c.P.Pkg(a.sq), an: c.P.Pkg(a.an), pl: c.P.Pkg(a.pl), pb: c.P.Pkg(a.pb)}
@@ -329,6 +335,7 @@ func runC06(c *Ctx, a c06Anchors) {
 	c06Subquery(w)
 	c06Build(w)
 	c06SimplifyBetween(w)
+	c06SimplifyConnectives(w)
 }
 
 // ---- CMP ---------------------------------------------------------------------------------
